@@ -22,7 +22,7 @@ from genlib import snake
 
 DIMS = [
     ("normalization", ["none", "rust"]),
-    ("response_derives", ["Serialize", "Serialize,Debug,Clone,PartialEq", "Debug, Clone ,Serialize"]),
+    ("response_derives", ["Serialize", "Serialize,Debug,Clone,PartialEq", "Debug, Clone , Serialize"]),
     ("variables_derives", ["Deserialize", "Deserialize, Debug ,Clone,PartialEq"]),
     ("visibility", ["", "pub", "pub(crate)"]),
     ("custom_scalars_module", [None, "crate::scalars"]),
